@@ -162,7 +162,7 @@ Definition m_step (st : mst) (o : mop) : mst * mres :=
       end
   | MSetAttr sz count => if m_sdsetattr sz count then (set_attr st count, MOk count) else (st, MRefused)
   | MSdCreate rank namelen =>
-      if m_sdcreate_ok rank namelen && (q_nsets st <? H4_MAX_NC_VARS) then (set_nsets st (q_nsets st + 1), MOk (q_nsets st))
+      if m_sdcreate_ok rank namelen && negb (truth (sdcreate_too_many_vars (q_nsets st))) then (set_nsets st (q_nsets st + 1), MOk (q_nsets st))
       else (st, MRefused)
   | MResetMax req sys =>
       match m_reset_maxopen req sys (open_count (q_slots st)) (q_slots st) with
